@@ -56,7 +56,9 @@ class HeapMixin(object):
       return VEnum(e, term)
     if t in ('ref', 'exc'):
       c = self.class_by_name(kind.arg) if kind.arg else None
-      return VRef(c, term, nullable=kind.nullable)
+      v = VRef(c, term, nullable=kind.nullable)
+      self.assume_class_invariants(st, v)
+      return v
     if t in ('list', 'dict', 'set', 'tuple'):
       return VRef(t, term, nullable=kind.nullable, elem=kind.elem, keykind=kind.key)
     if t == 'fn':
@@ -68,6 +70,38 @@ class HeapMixin(object):
         st.tags.setdefault(term.get_id(), tuple(kind.tags))
       return VVal(term)
     raise Unsupported('wrap kind %r' % (kind,))
+
+  def assume_class_invariants(self, st, v):
+    """Declared shape invariants of the object's class (e.g. valid PhaseOptions) hold for every object reached through a
+    declared field; they are listed as assumptions in evidence."""
+    inv = self.ctx.registry.class_invariants
+    if not inv or not isinstance(v.cls, ClassInfo) or getattr(self, '_in_inv', False):
+      return
+    exprs = [e for c in v.cls.mro() for e in inv.get(c.name, [])]
+    if not exprs:
+      return
+    key = ('$inv', v.t.get_id())
+    if key in st.ghost:
+      return
+    st.ghost[key] = True
+    self._in_inv = True
+    try:
+      for e in exprs:
+        s = st.fork()
+        s.env = {'self': VRef(v.cls, v.t), '$module': v.cls.module}
+        saved = self.spec_mode
+        self.spec_mode = True
+        try:
+          t = self.eval_merged_bool(s, self.parse_spec(e))
+        finally:
+          self.spec_mode = saved
+        for c in s.pc[len(st.pc):]:
+          if c.get_id() in s.ax and c.get_id() not in st.ax:
+            st.axiom(c)
+        st.axiom(z3.Implies(v.t != 0, t) if v.nullable else t)
+      self.ctx.use_trusted('class invariant: %s' % v.cls.name)
+    finally:
+      self._in_inv = False
 
   def unwrap(self, st, v, kind):
     """V -> z3 term of kind.sort(); raises Unsupported when statically incompatible."""
